@@ -40,6 +40,7 @@ def reduceOp (env : OpEnv) : ReduceOp
      | .leaf (.hash b) => mk b
      | _ => opErr "CoerceError:Hash")
   | .computeMinUtxo, [x] => do
+    -- 197 = `MIN_UTXO_BYTES` (no remembered body: the size of a plain output is assumed), 160 = the CIP-55 overhead
     let idx ← liftNum (exprIntoNumber x)
     let lovelace ← (match env.latestOutputs with
       | none => (.ok (197 * env.coinsPerByte) : Outcome Int)
